@@ -112,7 +112,7 @@ PROPERTIES = {
     'C10': dict(traces=['l1'], families=['l1.ledger'], title='L1 deposit sequences / events'),
     'C11': dict(traces=['l1'], families=['l1.oracle', 'l1.ledger', 'l1.oracle-ind', 'l1.oracle-proof'], title='output oracle log structure'),
     'C12': dict(traces=['l1', 'l2'], families=['l1.auth', 'l2.auth', 'val.valset', 'val.plan'], title='authorization'),
-    'C13': dict(traces=['val'], families=['val.valset'], title='validator set equals what the engine was told'),
+    'C13': dict(traces=['val'], families=['val.valset', 'val.plan'], title='validator set equals what the engine was told'),
     'C14': dict(traces=['val'], families=['val.plan'], title='executor change plan'),
     'C15': dict(traces=['or'], families=['or.oracle', 'or.disabled'], title='oracle prices need a signed quorum'),
     'C16': dict(traces=['l1', 'l2'], families=['l1.ledger', 'l1.auth', 'l2.deposit', 'val.valset'], title='genesis round trip'),
